@@ -168,6 +168,18 @@ def gen_long_flat():
     yield "long-semicolons", ";" * 4000
     yield "long-assert", "".join("assert {ok = true, desc = \"d%d\"};\n" % i for i in range(100))
     yield "long-constraint-alternation", "let x :: " + " | ".join(str(i) for i in range(600)) + " = 5;"
+    # many function values and one comparison that has to look at them (each function carries the scope before it)
+    for n in (8, 16, 24, 32, 64, 128):
+        defs = "".join("let f%d = func (x) => x + %d;\n" % (i, i) for i in range(n))
+        yield "many-functions-compared-%d" % n, defs + "let r = f%d == f%d;\nlet s = f%d == f0;\n" % (n - 1, n - 1, n - 1)
+        yield "many-functions-in-list-%d" % n, defs + "let r = f%d in [f0, f%d];\n" % (n - 1, n - 1)
+        yield "many-functions-in-tuple-compared-%d" % n, defs + "let r = {f = f%d} == {f = f%d};\n" % (n - 1, n - 1)
+        yield "many-modules-compared-%d" % n, "".join("let m%d = module {a = %d} => { let b = mod.a; };\n" % (i, i) for i in range(n)) + "let r = m%d == m%d;\n" % (n - 1, n - 1)
+    # a constraint that mentions itself outside any list or tuple (nothing gets smaller on the way round)
+    for decl in ("constraint a = a | 1;", "constraint a = 1 | a;", "constraint a = a | a;", "constraint a = a;", "constraint a = a | [a];",
+                 "constraint a = \"x\" | a | in 1..5;", "constraint b = 1 | 2;\nconstraint a = b | a;"):
+        for val in ("1", "\"s\"", "[1]", "{k = 1}", "NULL"):
+            yield "constraint-mentions-itself-unguarded", decl + "\nlet x :: a = " + val + ";"
 
 
 def cli_long_flat(cases):
@@ -428,7 +440,7 @@ def run(ctx):
                 "x ordered pairs of 15 edge operands, casts of 43 edge operands, ranges over 8 bounds x 8 steps (length <= 10^6), every format "
                 "template of length <= 4 over 6 characters x 0..3 arguments and the expression form, every raw text of length <= 3 over 14 "
                 "characters in 4 contexts, every canonical statement form of C05 with each of its separators (incl. four comment placements) at every "
-                "gap between tokens, 16 nesting constructs at depth 1..%d, 35 flat constructs grown to 4 KiB (also through the real `ucg build` "
+                "gap between tokens, 16 nesting constructs at depth 1..%d, 35 flat constructs grown to 4 KiB, 8..128 function / module values compared with each other, 7 constraints that mention themselves unguarded x 5 values (also through the real `ucg build` "
                 "and `ucg fmt` with their default stack), every repository .ucg file and UTF-8 fuzz-corpus entry "
                 "unmutated, and delete/duplicate/swap/replace-by-12-tokens at every token position of the files under the size bound. "
                 "Every input is a distinct text; non-trivial = reached the parser with a lexically valid text." % (tok_len, len(VOCAB), maxdepth))
